@@ -115,7 +115,7 @@ func (o *Object) Call(r *Rec, paradigm string) {
 
 // Kinds lists the object kinds, simplest first. all adds the kinds that are too expensive for the quick tier.
 func Kinds(all bool) []string {
-	k := []string{"pregel-state-branch", "workflow-map", "nested", "react", "react-rd", "host", "dag-fanout"}
+	k := []string{"pregel-state-branch", "workflow-map", "nested", "react", "react-rd", "react-shared-input", "host", "dag-fanout"}
 	if all {
 		k = append(k, "workflow-fanin")
 	}
@@ -125,7 +125,7 @@ func Kinds(all bool) []string {
 // Describe tells which paradigms a kind offers and whether its runs have intra-run parallelism.
 func Describe(kind string) (paradigms []string, par bool) {
 	switch kind {
-	case "react", "react-rd", "host":
+	case "react", "react-rd", "react-shared-input", "host":
 		return []string{"invoke", "stream"}, false
 	case "dag-fanout", "workflow-fanin":
 		return valParadigms, true
@@ -150,6 +150,8 @@ func Build(kind string) (*Object, error) {
 		return buildReact(false)
 	case "react-rd":
 		return buildReact(true)
+	case "react-shared-input":
+		return buildReactShared()
 	case "host":
 		return buildHost()
 	}
